@@ -5,6 +5,7 @@ import (
 	"context"
 	"fmt"
 	"sync"
+	"time"
 
 	"github.com/bradenaw/juniper/xsync"
 
@@ -162,6 +163,49 @@ func future(waiters, ctxWaiters int) Scenario {
 	}}
 }
 
+// futureNeverFilled: WaitContext gives up when its context ends although nothing ever fills the
+// future (a waiter that stays parked shows as a deadlock); a Fill afterwards still reaches later
+// waiters.
+func futureNeverFilled(ctxWaiters int, deadline bool) Scenario {
+	return Scenario{fmt.Sprintf("future/never-filled/ctxWaiters=%d/deadline=%v", ctxWaiters, deadline), func() {
+		f := xsync.NewFuture[int]()
+		var wg sync.WaitGroup
+		ctx, cancel := context.WithCancel(context.Background())
+		want := context.Canceled
+		if deadline {
+			ctx, cancel = context.WithTimeout(context.Background(), time.Millisecond)
+			want = context.DeadlineExceeded
+		}
+		defer cancel()
+		for i := 0; i < ctxWaiters; i++ {
+			wg.Add(1)
+			go func() {
+				defer wg.Done()
+				v, err := f.WaitContext(ctx)
+				if err != want || v != 0 {
+					hx.Fail("future-wait-context-result", "WaitContext on a future that was never filled returned (%d, %v); its context ended with %v", v, err, want)
+				}
+			}()
+		}
+		if !deadline {
+			wg.Add(1)
+			go func() {
+				defer wg.Done()
+				cancel()
+			}()
+		}
+		wg.Wait()
+		f.Fill(7)
+		if v, err := f.WaitContext(ctx); err == nil && v != 7 {
+			hx.Fail("future-wrong-value", "WaitContext after Fill returned (%d, nil)", v)
+		}
+		if v := f.Wait(); v != 7 {
+			hx.Fail("future-wrong-value", "Wait after Fill returned %d", v)
+		}
+		hx.Outcome("ok")
+	}}
+}
+
 func lazy(callers int) Scenario {
 	return Scenario{fmt.Sprintf("lazy/callers=%d", callers), func() {
 		runs := 0
@@ -256,6 +300,7 @@ func All() []Scenario {
 		watchable([][]int{{1, 2}, {3}}, 1),
 		watchable([][]int{{1, 2}}, 2),
 		future(1, 0), future(2, 0), future(1, 1), future(0, 2),
+		futureNeverFilled(1, false), futureNeverFilled(2, false), futureNeverFilled(1, true),
 		lazy(2), lazy(3), lazyPanic(2),
 	}
 }
